@@ -95,7 +95,16 @@ class ApplicationFileScanner:
                 did_error_scanning_files = True
                 break
 
-        sorted_files_to_parse = sorted(files_to_parse)
+        # The same file can be reached through different spellings of its path
+        # (a.md, ./a.md, an absolute path).  Process it once, under the spelling that
+        # sorts first.
+        sorted_files_to_parse: List[str] = []
+        absolute_paths_seen: Set[str] = set()
+        for next_file in sorted(files_to_parse):
+            absolute_path = os.path.abspath(next_file)
+            if absolute_path not in absolute_paths_seen:
+                absolute_paths_seen.add(absolute_path)
+                sorted_files_to_parse.append(next_file)
         LOGGER.info("Number of files found: %d", len(sorted_files_to_parse))
         did_only_list_files = ApplicationFileScanner.__handle_main_list_files(
             only_list_files, sorted_files_to_parse, handle_output, handle_error
